@@ -29,7 +29,10 @@ func init() {
 		return []*Result{c.RuleMapOrder(), c.RuleDefFragment(), c.RuleNondetSrc([]string{"generate", "update", "compare", "format"})}
 	}}
 	Properties["X-R7"] = &Property{ID: "X-R7", Level: "other", Run: func(c *Ctx, tier string) []*Result {
-		return []*Result{c.RuleErrorfNil(), c.RuleLineKeep(c.lineKeepScope(), 0), c.RuleLitGuard(), c.RuleLocComment(), c.RuleDefKept(), c.RuleCacheReader()}
+		return []*Result{c.RuleErrorfNil(), c.RuleLineKeep(c.lineKeepScope(), 0), c.RuleLitGuard(), c.RuleLocComment(), c.RuleDefKept(), c.RuleCacheReader(), c.RuleAppendAlias(), c.RulePathForm(), c.RuleLoopReplace(), c.RuleStdoutNone("update"), c.RuleOperandVerbatim(), c.RuleWalkStop()}
+	}}
+	Properties["X-R9"] = &Property{ID: "X-R9", Level: "other", Run: func(c *Ctx, tier string) []*Result {
+		return []*Result{c.RuleCaptureRaw(), c.RuleFormatLine()}
 	}}
 	Properties["X-R5"] = &Property{ID: "X-R5", Level: "other", Run: func(c *Ctx, tier string) []*Result {
 		return []*Result{c.RuleReadLine(), c.RuleBorrow(), c.RuleBufwFlush(), c.RuleSearchResume(), c.RuleIdxArray(), c.RuleIncludeFrame(), c.RuleIncludePass(), c.RuleCmdTypeEnum(), c.RuleBuildVars(), c.RuleExclOrder(), c.RuleScanSplit(), c.RuleDoubleWrap(), c.RuleGoShared(), c.RuleCtorDefaults()}
